@@ -586,7 +586,10 @@ impl FormatSpec {
                 (Some(_), _) => Err(FormatSpecError::NotAllowed("Sign")),
                 (_, true) => Err(FormatSpecError::NotAllowed("Alternate form (#)")),
                 (_, _) => match num.to_u32() {
-                    Some(n) if n <= 0x10ffff => Ok(std::char::from_u32(n).unwrap().to_string()),
+                    // surrogate code points are in range but are not `char`s: no panic
+                    Some(n) if n <= 0x10ffff => std::char::from_u32(n)
+                        .map(|c| c.to_string())
+                        .ok_or(FormatSpecError::CodeNotInRange),
                     Some(_) | None => Err(FormatSpecError::CodeNotInRange),
                 },
             },
